@@ -144,3 +144,19 @@ func init() {
 		Real:       ufsReal, Stub: ufsStub,
 		ProbeNames: []string{"dotdot-walk", "attach-refused"}})
 }
+
+func init() {
+	reg(&propCfg{ID: "C20", QuickRuns: 6000, QuickSecs: 40, ThoroughRuns: 300000, ThoroughSecs: 780, Chunk: 50,
+		RuleNote:   "C20: capacities 1, 2, 3, 5, 16, 17, 64; histories of 0, 1, N-1, N, N+1, 2N+1, 3N+2 and 10N entries (at most 400) from 3 owners and types {1,2,4}, in 1..4 batches. Stratum 'sequential': one producer; after each batch the system runs to quiescence and Filter (all, and drawn owner/type filters) is compared exactly with a reference ring of the last N entries. Stratum 'concurrent': 1..4 producers and 1..2 filterers as simulated goroutines; every result must contain only logged matching entries, no duplicates, at most N; per-producer order, real-time order and the order inside all results must be acyclic, no matching entry forced between two returned ones may be missing; after producers finish the exact (1 producer) or size (several) check applies; no Log/Filter call may be blocked at quiescence.",
+		Real:       []string{"go9p Logger (NewLogger, Log, Filter, doLog goroutine) — instrumented copy of /repo", "Go runtime, channels"},
+		Stub:       []string{"callers: simulated producer and filterer goroutines"},
+		ProbeNames: []string{"ring-wrapped-3+-times"}})
+}
+
+func init() {
+	reg(&propCfg{ID: "C06", QuickRuns: 2500, QuickSecs: 45, ThoroughRuns: 300000, ThoroughSecs: 780, Chunk: 40,
+		RuleNote:   "C06: six strata (scripted implementation | Ufs on a scratch tree) x (grammar | byte mutation | raw bytes). A hostile raw peer optionally negotiates (msize 24..70000) and binds fids in several states (attached, walked, opened directory and file), then sends 5..30 frames: every message type (T and R codes) with boundary and random field values (NOFID, NOTAG, 0, max, 2^31, 2^63, 2^64-1), names '', '.', '..', 'a/b', '/', 255, 4000 and 65000 bytes, walks of 16, 17 and 300 elements, counts around msize and 2^32, directory reads at arbitrary offsets, second Tversion mid-session; or valid requests with flipped / inserted / deleted / truncated bytes and edited size fields; or random bytes. A bystander connection issues Tstat throughout and a fresh connection is opened afterwards. Oracle: no goroutine of the simulated process panics; bystander and later connection are served; allocation stays bounded.",
+		Real:       append(append([]string{}, srvReal...), "go9p Ufs on a scratch tree (ufs strata)"),
+		Stub:       srvStub,
+		ProbeNames: []string{"hostile-connection-dropped-by-server", "bystander-worked-throughout", "grammar-Tread", "grammar-Twalk", "grammar-Twstat", "grammar-Tcreate", "grammar-Rread"}})
+}
